@@ -8,8 +8,9 @@ LEVEL = "model_checking"
 SERDE = os.path.join(SPECS, "serde")
 TLA = os.path.join(SERDE, "TensorReprMC.tla")
 
-# fraction of the emitted states executed in the quick tier (seeded sample, every stratum at least once per chunk);
-# measured: executing all of them costs ~80 s CPU (5-10 s on 16 idle cores), so the quick tier executes everything too
+# fraction of the emitted states executed in the quick tier (seeded sample, every stratum at least once per chunk).
+# The quick tier is bounded in the specification instead (TensorReprMC.cfg: tofile() explored for one code pattern and
+# for empty tensors, one write): ~106 k states, all executed (~285 k implementation tests, ~100 s CPU)
 QUICK_FRACTION = 1.0
 
 
@@ -76,18 +77,21 @@ def run(ctx):
         "shapes_per_n": 3,
         "patterns": "zeros ones ramp rev alt",
         "dest_kinds": "w0 wk rpk ab bio0 biok",
-        "ext_offsets": "zero one eof whole x length given/omitted",
+        "ext_offsets": "0 1 2(end of file) 0(whole file) 4095 4096 4097 8192(end of file) 70001 x length given/omitted",
+        "views": "own win(3 elements into a larger buffer) chunk(second half) strided(step 2, offset 1) for array native/bits and torch",
         "max_writes": 2 if thorough else 1,
+        "write_patterns": "all" if thorough else "ramp (and empty tensors)",
     }
     ctx.exhaustive = frac >= 1.0
     ctx.rule = (
         "TLC enumerates every logical tensor [cls, n, dims, codes] of the bounded space, every representation applicable to the class "
-        "(array native/bits/sbits/ctor/list, packed, proto x storage field, external x offset kind x length given, lazy x inner, torch) "
+        "(array native/bits/sbits/ctor/list and torch, each owning its buffer or as a window / chunk / strided view of a larger one, packed, "
+        "proto x storage field, external x offset kind (incl. offsets across the page / mmap allocation granularity) x length given, lazy x inner) "
         "and 0..MaxWrites tofile() calls into each destination kind; Agree, PackLen, WriteInv, AgreeAll and Tables are invariants of the "
         "specification. Each printed state is built on the real library for every element type of the class to which the representation "
         "applies and dtype, shape, size, nbytes, tobytes(), numpy() (as bit patterns), tofile() content and position, serialize_tensor() "
         "are compared with the record; the same records are compared with onnx.numpy_helper / onnx.helper (divergence class). "
-        "distinct_nontrivial = strata (cls, representation, inner, flavour, field, offset kind, length given, destination kind, writes) executed."
+        "distinct_nontrivial = strata (cls, representation, inner, flavour, view, field, offset kind, length given, destination kind, writes) executed."
     )
     ctx.assumptions = [
         "little-endian host",
